@@ -87,7 +87,7 @@ package linter
 //@ spec typeOfSpec(ctx *CheckerContext, x ast.Expr) types.Type = ite(isNilIface(infoTypeOf(ctx.TypesInfo, x)), UnknownType, infoTypeOf(ctx.TypesInfo, x))
 
 //@ func (*CheckerContext).TypeOf
-//@   prop C14 C01 C03 C13
+//@   prop C14 C01 C03 C13 C05
 //@   requires ctx != nil && ctx.Context != nil && ctx.TypesInfo != nil
 //@   pure
 //@   ensures @typeof-spec result == typeOfSpec(ctx, x)
@@ -103,7 +103,7 @@ package linter
 
 // (C03, C13: the answer is a function of the sizes object and the type alone - nothing remembered from earlier calls)
 //@ func (*CheckerContext).SizeOf
-//@   prop C14 C01 C03 C13
+//@   prop C14 C01 C03 C13 C05
 //@   requires ctx != nil && ctx.Context != nil
 //@   requires @typ-non-nil !isNilIface(typ)
 //@   pure
